@@ -1,7 +1,8 @@
 """C04 - Greedy transcription is the CTC collapse of the arg-max path.
 
 Space: ALL arg-max paths over C in {2,3,4} classes (blank last) of T <= Tmax frames, rendered as integer score tensors
-in three margin styles (exact ties excluded: the arg-max is then undefined), and batched three ways:
+in four styles (peaky, margin 1, close runner-up, and exact ties with later classes incl. blank, where the arg-max is the
+first maximal index as in numpy / torch), and batched three ways:
  (i) every path of one (C,T) as ONE batch (contains the all-blank line, every leading/trailing-blank pattern ...),
  (ii) every ordered pair of paths of one (C,T<=Tp), (iii) every ordered triple for T<=Tt, each path also alone.
 Each batch goes through: greedy_decode_ctc on the tensor; the REAL PytorchEngineLineOCR.run_ocr on a TorchScript stub
@@ -18,14 +19,14 @@ ID = 'C04'
 
 MANIFEST = dict(
     technique='explicit-state enumeration of all arg-max paths x margin styles x batch compositions; real greedy decoders and the real engine on a TorchScript stub vs the CTC-collapse reference',
-    text='Bounded exhaustive: every arg-max path over 2..4 classes and up to 6 frames, in three score-margin styles, decoded alone, as one batch per length, and in every ordered pair (T<=3) / triple (T<=2) of lines, through greedy_decode_ctc, the real PytorchEngineLineOCR.run_ocr (stub network reproducing the tensor), GreedyDecoder and greedy_filtration; every result is compared with the reference collapse, and the input tensor must stay unmodified.',
-    note='Exact score ties are excluded (arg-max undefined); the 2-D input branch of greedy_decode_ctc is not part of the property; T > 6 is not explored.',
+    text='Bounded exhaustive: every arg-max path over 2..4 classes and up to 6 frames, in four score styles (incl. exact ties resolved to the first maximal index), decoded alone, as one batch per length, and in every ordered pair (T<=3) / triple (T<=2) of lines, through greedy_decode_ctc, the real PytorchEngineLineOCR.run_ocr (stub network reproducing the tensor), GreedyDecoder and greedy_filtration; every result is compared with the reference collapse, and the input tensor must stay unmodified.',
+    note='Exact ties are only placed on classes after the intended one (arg-max = first maximal index, the numpy / torch convention); the 2-D input branch of greedy_decode_ctc is not part of the property; T > 6 is not explored.',
     ref='3/C04')
 
 BOUNDS = {'quick': dict(T=5, Tp=3, Tt=2), 'thorough': dict(T=6, Tp=4, Tt=3)}
 BOUNDS['replay'] = BOUNDS['quick']
 CHARS = ['a', 'b', 'c']
-STYLES = ['peaky', 'margin1', 'runnerup']
+STYLES = ['peaky', 'margin1', 'runnerup', 'tie_up']
 H = 8
 _ENG = {}
 
@@ -56,6 +57,9 @@ def scores_for(paths, C, style):
             S[n, c, t] = hi
             if style == 'runnerup':
                 S[n, (c + 1) % C, t] = 149
+            if style == 'tie_up':
+                # exact ties with every LATER class (incl. blank): "the arg-max" of numpy and torch is the first maximal index
+                S[n, c:, t] = hi
     return S
 
 
@@ -194,7 +198,7 @@ def describe(tier):
                 'as one batch, every ordered pair (T<=Tp) and triple (T<=Tt). state = distinct (C, path). Non-trivial: a path '
                 'whose collapse merges a repeat, or a batch that mixes empty and non-empty results.',
         'bounds': b, 'alphabets': {'styles': STYLES, 'classes': [2, 3, 4]},
-        'assumptions': ['exact score ties are excluded', 'scores are integers 0..255 so that they can be painted into uint8 line images'],
+        'assumptions': ['with exact ties the arg-max is the first maximal index (numpy / torch convention)', 'scores are integers 0..255 so that they can be painted into uint8 line images'],
         'min_nontrivial': 50,
         'required_tags': ['repeat-merged', 'first-frame-non-blank', 'all-blank-line', 'batch-with-empty-and-non-empty-lines'],
     }
